@@ -2,6 +2,8 @@ import Mdsort.Proofs.Captures
 import Mdsort.Proofs.Interp
 import Mdsort.Proofs.LimitsEval
 import Mdsort.Model.LimitsWorld
+import Mdsort.Proofs.LimitsEvalP
+import Mdsort.Proofs.WorldFrame
 
 /-!
 # A failure of `match_interpolate` is sticky (match.c, `matches_interpolate`)
@@ -358,54 +360,136 @@ theorem all_messageParsePL (L : Limits) (d : Handle) (dir name content : Bytes) 
       · exact all_call fun _ => all_ret (fun ms h => by cases h)
   · exact all_ret (fun ms h => by cases h)
 
-/-- `processMessageL` is the parse phase followed by a continuation which, when evaluation matches and interpolation
-fails, only closes the message's descriptor and reports an error. -/
-theorem processMessageL_interp_error (L : Limits) (env : PEnv) (orc : EvalOracles) (expr : Expr) (md : Maildir) (name : Bytes)
-    (st : MainSt) (d : Handle) (content p n : Bytes) (mf : MFlags) (est : St)
-    (hd : md.dirH = some d) (hf : st.files.get md.path name = some content)
-    (hp : pathjoinL L.pathMax md.path name = some p) (hn : strlcpyL L.nameMax1 name = some n)
-    (hmf : flagsParse n = some mf)
-    (hev : evalL L (msgEnv env orc p) (parseMessage content) expr 0 (parseMessage content) { ml := [], flags := mf }
-      = (.match, est))
-    (hint : matchesInterpolateL L (msgEnv env orc p) est.ml
-      (partMsg (parseMessage content) ((getAttachments (parseMessage content)).getD [])) = none) :
-    ∃ K : Option MsgSt → Prog (MainSt × Maildir),
-      processMessageL L env orc expr md name st = (messageParsePL L d md.path name content).bind K ∧
-      ∀ pm, ParsedFromL L md.path name content pm →
-        Calls IsClose (K pm) ∧ All (fun r => r = ({ st with error := true }, md)) (K pm) := by
-  refine ⟨?K, ?h1, ?h2⟩
-  case h1 =>
-    unfold processMessageL
-    simp only [hd, hf]
-    rfl
-  case h2 =>
-    intro pm hpm
-    cases pm with
-    | none => exact ⟨calls_ret _, rfl⟩
-    | some ms =>
-      obtain ⟨p', n', mf', hp', hn', hmf', h1, h2, h3, h4⟩ := hpm ms rfl
-      rw [hp] at hp'; cases hp'
-      rw [hn] at hn'; cases hn'
-      rw [hmf] at hmf'; cases hmf'
-      obtain ⟨nm, pth, fd, msg, parts, flags, loc, cont⟩ := ms
-      simp only at h1 h2 h3 h4
-      subst h1 h2 h3 h4
-      unfold msgEnv at hev hint
-      simp only [hev, hint]
-      cases fd with
-      | none => exact ⟨calls_ret _, rfl⟩
-      | some h =>
-        simp only [freeMsg, bind_eq, pure_eq, call_bind, ret_bind, call_bind']
-        exact ⟨calls_call ⟨h, rfl⟩ fun _ => calls_ret _, fun _ => rfl⟩
+/-- What `processMessageL` does with the result `ev` of evaluation: interpolate, inspect / execute, free. -/
+def afterEvalL (L : Limits) (env : PEnv) (orc : EvalOracles) (md : Maildir) (name : Bytes) (st : MainSt) (ms : MsgSt) :
+    Tri × St → Prog (MainSt × Maildir)
+  | (.error, _) => do freeMsg ms; pure ({ st with error := true }, md)
+  | (.nomatch, _) => do freeMsg ms; pure (st, md)
+  | (.match, est) =>
+    match matchesInterpolateL L (msgEnv env orc ms.path) est.ml (partMsg ms.msg ms.parts) with
+    | none => do freeMsg ms; pure ({ st with error := true }, md)
+    | some (ml, msgs) =>
+      let ms1 := { ms with msg := msgs 0, flags := est.flags }
+      let st1 := { st with log := st.log ++ inspectLines env ml ms.path }
+      if env.dryrun then do freeMsg ms1; pure (st1, md)
+      else do
+        let (xs, e) ← matchesExecL L env ml { src := md, chsrc := false, ms := ms1, reject := false }
+        freeMsg xs.ms
+        pure ({ st1 with error := st1.error || e, reject := st1.reject || xs.reject,
+                         files := afterExec st1.files md.path name xs.ms }, md)
 
-/-- Whatever the calls return: when the rules match and interpolation fails, the run of `processMessageL` is the run of
-the parse phase followed by `close` calls only, every call is one of `openat(O_RDONLY)`, `read`, `close`, and the outcome
-is "error", nothing else changed. -/
+/-- `processMessageL` in three phases: parse, evaluate (the program `evalPL`: its `command`, `isdirectory` and file-time
+`date` conditions call the operating system), and the rest. -/
+theorem processMessageL_phases (L : Limits) (env : PEnv) (orc : EvalOracles) (expr : Expr) (md : Maildir) (name : Bytes)
+    (st : MainSt) (d : Handle) (content : Bytes) (hd : md.dirH = some d) (hf : st.files.get md.path name = some content) :
+    processMessageL L env orc expr md name st =
+      (messageParsePL L d md.path name content).bind fun pm =>
+        match pm with
+        | none => pure ({ st with error := true }, md)
+        | some ms => (evalPL L (msgEnv env orc ms.path) expr ms.msg ms.flags).bind (afterEvalL L env orc md name st ms) := by
+  unfold processMessageL
+  simp only [hd, hf]
+  congr 1
+
+/-- When evaluation matches and interpolation fails, what follows only closes the message's descriptor and reports an
+error. -/
+theorem afterEvalL_interp_error (L : Limits) (env : PEnv) (orc : EvalOracles) (md : Maildir) (name : Bytes) (st : MainSt)
+    (ms : MsgSt) (est : St)
+    (hint : matchesInterpolateL L (msgEnv env orc ms.path) est.ml (partMsg ms.msg ms.parts) = none) :
+    Calls IsClose (afterEvalL L env orc md name st ms (.match, est)) ∧
+      All (fun r => r = ({ st with error := true }, md)) (afterEvalL L env orc md name st ms (.match, est)) := by
+  simp only [afterEvalL, hint]
+  obtain ⟨nm, pth, fd, msg, parts, flags, loc, cont⟩ := ms
+  cases fd with
+  | none => exact ⟨calls_ret _, rfl⟩
+  | some h =>
+    simp only [freeMsg, bind_eq, pure_eq, call_bind, ret_bind, call_bind']
+    exact ⟨calls_call ⟨h, rfl⟩ fun _ => calls_ret _, fun _ => rfl⟩
+
+/-- Whatever the calls return: when in this run the rules match (the result of the evaluation program `evalPL`, run after
+the parse phase) and interpolation of the resulting list fails, the run of `processMessageL` is the run of the parse
+phase, then calls of evaluation (`EvalCallOf expr`: `stat` only for a tree with `isdirectory` / file-time `date`,
+`open("/dev/null")`, `fork`, `waitpid`, `close` only for one with a `command` condition), then `close` calls only; no
+call is mutating; the outcome is "error", nothing else changed. -/
 theorem processMessageL_interp_error_run (L : Limits) (env : PEnv) (orc : EvalOracles) (expr : Expr) (md : Maildir) (name : Bytes)
     (st : MainSt) (d : Handle) (content p n : Bytes) (mf : MFlags) (est : St)
     (hd : md.dirH = some d) (hf : st.files.get md.path name = some content)
     (hp : pathjoinL L.pathMax md.path name = some p) (hn : strlcpyL L.nameMax1 name = some n)
     (hmf : flagsParse n = some mf)
+    (orcl : Nat → Call → Res)
+    (hev : (Own.runO orcl (evalPL L (msgEnv env orc p) expr (parseMessage content) mf)
+      (Own.runO orcl (messageParsePL L d md.path name content) 0).2.2).1 = (.match, est))
+    (hint : matchesInterpolateL L (msgEnv env orc p) est.ml
+      (partMsg (parseMessage content) ((getAttachments (parseMessage content)).getD [])) = none) :
+    (runOracle orcl (processMessageL L env orc expr md name st) 0 []).1 = ({ st with error := true }, md) ∧
+    (∀ x ∈ (runOracle orcl (processMessageL L env orc expr md name st) 0 []).2,
+      ParseEvalCall d expr x.1 ∧ x.1.mutating = false) ∧
+    ∃ E T, (runOracle orcl (processMessageL L env orc expr md name st) 0 []).2 =
+        (runOracle orcl (messageParsePL L d md.path name content) 0 []).2 ++ E ++ T ∧
+        (∀ x ∈ E, EvalCallOf expr x.1) ∧ ∀ x ∈ T, IsClose x.1 := by
+  have hall := all_messageParsePL L d md.path name content
+  have hpm : ParsedFromL L md.path name content (Own.runO orcl (messageParsePL L d md.path name content) 0).1 := by
+    have := all_runOracle_val hall orcl 0 []
+    rwa [Own.runOracle_eq] at this
+  have hpc := calls_runOracle_mem (parse_messageParsePL L d md.path name content) orcl 0 []
+  rw [processMessageL_phases L env orc expr md name st d content hd hf]
+  simp only [Own.runOracle_eq, Own.runO_bind, List.nil_append] at hpc ⊢
+  generalize Own.runO orcl (messageParsePL L d md.path name content) 0 = rp at hpm hev hpc
+  obtain ⟨pm, ptr, j⟩ := rp
+  simp only at hpm hev hpc ⊢
+  have hparse : ∀ x ∈ ptr, ParseEvalCall d expr x.1 ∧ x.1.mutating = false := by
+    intro x hx
+    rcases hpc x hx with h | h
+    · simp at h
+    · exact ⟨.inl h, h.quiet.1⟩
+  cases pm with
+  | none =>
+    refine ⟨rfl, ?_, [], [], by simp, by simp, by simp⟩
+    simpa using hparse
+  | some ms =>
+    obtain ⟨p', n', mf', hp', hn', hmf', h1, h2, h3, h4⟩ := hpm ms rfl
+    rw [hp] at hp'; cases hp'
+    rw [hn] at hn'; cases hn'
+    rw [hmf] at hmf'; cases hmf'
+    simp only [Own.runO_bind, h1, h2, h3]
+    have hec := calls_runOracle_mem (evalPL_calls_of L (msgEnv env orc p) expr (parseMessage content) mf) orcl j []
+    simp only [Own.runOracle_eq, List.nil_append] at hec
+    generalize Own.runO orcl (evalPL L (msgEnv env orc p) expr (parseMessage content) mf) j = re at hev hec
+    obtain ⟨ev, etr, j2⟩ := re
+    simp only at hev hec ⊢
+    subst hev
+    have hint' : matchesInterpolateL L (msgEnv env orc ms.path) est.ml (partMsg ms.msg ms.parts) = none := by
+      rw [h1, h2, h4]; exact hint
+    obtain ⟨hc, ha⟩ := afterEvalL_interp_error L env orc md name st ms est hint'
+    have hval := all_runOracle_val ha orcl j2 []
+    have hcl := calls_runOracle_mem hc orcl j2 []
+    simp only [Own.runOracle_eq, List.nil_append] at hval hcl
+    have hE : ∀ x ∈ etr, EvalCallOf expr x.1 := by
+      intro x hx
+      rcases hec x hx with h | h
+      · simp at h
+      · exact h
+    have hT : ∀ x ∈ (Own.runO orcl (afterEvalL L env orc md name st ms (Tri.match, est)) j2).2.1, IsClose x.1 := by
+      intro x hx
+      rcases hcl x hx with h | h
+      · simp at h
+      · exact h
+    refine ⟨hval, ?_, etr, _, by simp, hE, hT⟩
+    intro x hx
+    simp only [List.mem_append] at hx
+    rcases hx with hx | hx | hx
+    · exact hparse x hx
+    · exact ⟨.inr (hE x hx), (hE x hx).evalCall.quiet⟩
+    · obtain ⟨fd, hfd⟩ := hT x hx
+      exact ⟨.inl (.inr (.inr ⟨fd, hfd⟩)), by rw [hfd]; rfl⟩
+
+/-- `processMessageL_interp_error_run` for a rule tree that asks the operating system nothing, in terms of the pure
+evaluator `evalL`: only the calls of parsing, no `fork`; after the parse phase only `close`. -/
+theorem processMessageL_interp_error_run_pure (L : Limits) (env : PEnv) (orc : EvalOracles) (expr : Expr) (md : Maildir)
+    (name : Bytes) (st : MainSt) (d : Handle) (content p n : Bytes) (mf : MFlags) (est : St)
+    (hd : md.dirH = some d) (hf : st.files.get md.path name = some content)
+    (hp : pathjoinL L.pathMax md.path name = some p) (hn : strlcpyL L.nameMax1 name = some n)
+    (hmf : flagsParse n = some mf) (hfree : asksFree expr = true)
     (hev : evalL L (msgEnv env orc p) (parseMessage content) expr 0 (parseMessage content) { ml := [], flags := mf }
       = (.match, est))
     (hint : matchesInterpolateL L (msgEnv env orc p) est.ml
@@ -416,31 +500,24 @@ theorem processMessageL_interp_error_run (L : Limits) (env : PEnv) (orc : EvalOr
       ParseCall d x.1 ∧ x.1.mutating = false ∧ x.1 ≠ .fork) ∧
     ∃ T, (runOracle orcl (processMessageL L env orc expr md name st) 0 []).2 =
         (runOracle orcl (messageParsePL L d md.path name content) 0 []).2 ++ T ∧ ∀ x ∈ T, IsClose x.1 := by
-  obtain ⟨K, hK, hprop⟩ := processMessageL_interp_error L env orc expr md name st d content p n mf est hd hf hp hn hmf hev hint
-  have hall := all_messageParsePL L d md.path name content
-  have hcalls : Calls (ParseCall d) (processMessageL L env orc expr md name st) := by
-    rw [hK]
-    exact calls_bind_all (parse_messageParsePL L d md.path name content) hall
-      fun pm hpm => calls_mono (hprop pm hpm).1 fun c hc => .inr (.inr hc)
-  have hres : All (fun r => r = ({ st with error := true }, md)) (processMessageL L env orc expr md name st) := by
-    rw [hK]
-    exact all_bind_all hall fun pm hpm => (hprop pm hpm).2
-  refine ⟨all_runOracle_val hres orcl 0 [], ?_, ?_⟩
-  · intro x hx
-    rcases calls_runOracle_mem hcalls orcl 0 [] x hx with h | h
-    · simp at h
-    · exact ⟨h, h.quiet⟩
-  · rw [hK]
-    simp only [Own.runOracle_eq, Own.runO_bind, List.nil_append]
-    refine ⟨_, rfl, ?_⟩
+  have hev' : (Own.runO orcl (evalPL L (msgEnv env orc p) expr (parseMessage content) mf)
+      (Own.runO orcl (messageParsePL L d md.path name content) 0).2.2).1 = (.match, est) := by
+    rw [evalPL_asksFree_eq L _ expr hfree, ← hev]
+    rfl
+  obtain ⟨h1, h2, E, T, h3, hE, hT⟩ :=
+    processMessageL_interp_error_run L env orc expr md name st d content p n mf est hd hf hp hn hmf orcl hev' hint
+  have hE0 : E = [] := by
+    apply List.eq_nil_iff_forall_not_mem.2
     intro x hx
-    have hpm : ParsedFromL L md.path name content (Own.runO orcl (messageParsePL L d md.path name content) 0).1 := by
-      have := all_runOracle_val hall orcl 0 []
-      rwa [Own.runOracle_eq] at this
-    have := calls_runOracle_mem (hprop _ hpm).1 orcl (Own.runO orcl (messageParsePL L d md.path name content) 0).2.2 [] x
-      (by rw [Own.runOracle_eq]; simpa using hx)
-    rcases this with h | h
-    · simp at h
-    · exact h
+    have hf' := hfree
+    simp only [asksFree, Bool.and_eq_true, Bool.not_eq_true'] at hf'
+    rcases hE x hx with ⟨hc, _⟩ | ⟨hs | hs, _⟩
+    · rw [hf'.1.1] at hc; cases hc
+    · rw [hf'.1.2] at hs; cases hs
+    · rw [hf'.2] at hs; cases hs
+  subst hE0
+  refine ⟨h1, fun x hx => ?_, T, by simpa using h3, hT⟩
+  have hpc := ParseEvalCall.of_asksFree hfree (h2 x hx).1
+  exact ⟨hpc, hpc.quiet⟩
 
 end Mdsort.Proofs.Limits
